@@ -9,7 +9,6 @@ import (
 	"go/ast"
 	"go/importer"
 	"go/parser"
-	"go/token"
 	"go/types"
 	"os"
 	"path/filepath"
@@ -24,22 +23,19 @@ import (
 	"golang.org/x/tools/go/packages"
 )
 
-type vhImporter struct{ runtime *types.Package }
+type vhImporter struct{ pkgs map[string]*types.Package }
 
 func (im vhImporter) Import(path string) (*types.Package, error) {
-	if path == "github.com/gopher-fleece/runtime" {
-		return im.runtime, nil
+	if p, ok := im.pkgs[path]; ok {
+		return p, nil
 	}
 	return importer.Default().Import(path)
 }
 
-func vhRuntimePackage() *types.Package {
-	pkg := types.NewPackage("github.com/gopher-fleece/runtime", "runtime")
-	tn := types.NewTypeName(token.NoPos, pkg, "GleeceController", nil)
-	types.NewNamed(tn, types.NewStruct(nil, nil), nil)
-	pkg.Scope().Insert(tn)
-	pkg.MarkComplete()
-	return pkg
+// the packages the fixture sources import: parsed and type-checked like the fixture itself
+var vhDepSources = []struct{ path, file, src string }{
+	{"context", "context.go", "package context\n\ntype Context interface{ Err() error }\n"},
+	{"github.com/gopher-fleece/runtime", "runtime.go", "package runtime\n\ntype GleeceController struct{}\n\ntype Rfc7807Error struct {\n\tType string\n\tStatus int\n}\n"},
 }
 
 type VhFront struct {
@@ -76,22 +72,48 @@ func VhLoadSource(src string, patch func(f *ast.File)) (*VhFront, error) {
 	if patch != nil {
 		patch(file)
 	}
-	info := &types.Info{
-		Types: map[ast.Expr]types.TypeAndValue{}, Defs: map[*ast.Ident]types.Object{}, Uses: map[*ast.Ident]types.Object{},
-		Implicits: map[ast.Node]types.Object{}, Selections: map[*ast.SelectorExpr]*types.Selection{}, Scopes: map[ast.Node]*types.Scope{},
-		Instances: map[*ast.Ident]types.Instance{},
+	newInfo := func() *types.Info {
+		return &types.Info{
+			Types: map[ast.Expr]types.TypeAndValue{}, Defs: map[*ast.Ident]types.Object{}, Uses: map[*ast.Ident]types.Object{},
+			Implicits: map[ast.Node]types.Object{}, Selections: map[*ast.SelectorExpr]*types.Selection{}, Scopes: map[ast.Node]*types.Scope{},
+			Instances: map[*ast.Ident]types.Instance{},
+		}
 	}
-	rt := vhRuntimePackage()
-	conf := types.Config{Importer: vhImporter{rt}}
-	tpkg, err := conf.Check("example.com/ctl", fset, []*ast.File{file}, info)
+	im := vhImporter{pkgs: map[string]*types.Package{}}
+	imports := map[string]*packages.Package{}
+	for _, dep := range vhDepSources {
+		depPath := filepath.Join(dir, "deps", dep.path, dep.file)
+		if !symxIsSymbolic() {
+			if err := os.MkdirAll(filepath.Dir(depPath), 0o755); err != nil {
+				return nil, err
+			}
+			if err := os.WriteFile(depPath, []byte(dep.src), 0o644); err != nil {
+				return nil, err
+			}
+		}
+		depFile, err := parser.ParseFile(fset, depPath, dep.src, parser.ParseComments)
+		if err != nil {
+			return nil, err
+		}
+		depInfo := newInfo()
+		depTypes, err := (&types.Config{Importer: im}).Check(dep.path, fset, []*ast.File{depFile}, depInfo)
+		if err != nil {
+			return nil, err
+		}
+		im.pkgs[dep.path] = depTypes
+		loaded := &packages.Package{ID: dep.path, Name: depTypes.Name(), PkgPath: dep.path, Types: depTypes, TypesInfo: depInfo, Fset: fset,
+			Syntax: []*ast.File{depFile}, GoFiles: []string{depPath}, CompiledGoFiles: []string{depPath}}
+		imports[dep.path] = loaded
+		arbitrators.VhCachePackage(facade, loaded)
+	}
+	info := newInfo()
+	tpkg, err := (&types.Config{Importer: im}).Check("example.com/ctl", fset, []*ast.File{file}, info)
 	if err != nil {
 		return nil, err
 	}
-	rtLoaded := &packages.Package{ID: rt.Path(), Name: "runtime", PkgPath: rt.Path(), Types: rt, Fset: fset, TypesInfo: &types.Info{}}
 	pkg := &packages.Package{ID: "example.com/ctl", Name: tpkg.Name(), PkgPath: "example.com/ctl", Types: tpkg, TypesInfo: info, Fset: fset,
-		Syntax: []*ast.File{file}, GoFiles: []string{path}, CompiledGoFiles: []string{path}, Imports: map[string]*packages.Package{rt.Path(): rtLoaded}}
+		Syntax: []*ast.File{file}, GoFiles: []string{path}, CompiledGoFiles: []string{path}, Imports: imports}
 	arbitrators.VhRegister(facade, pkg, path, file)
-	arbitrators.VhRegister(facade, rtLoaded, filepath.Join(dir, "runtime.go"), &ast.File{Name: ast.NewIdent("runtime")})
 	g := symboldg.NewSymbolGraph()
 	sp := providers.NewSyncedProvider()
 	prov := providers.VhNewArbitrationProvider(facade)
